@@ -217,6 +217,13 @@ pub fn rot_cfg_strat(cln: BoxedStrategy<Cln>, modes: BoxedStrategy<Mode>) -> Box
         .prop_map(|((crit, nam), cln, mode, suffix, (basename, discr), crlf, via_logger, utc, build_variant)| {
             let empty_infix = nam.current_token().as_deref() == Some("");
             let basename = if empty_infix && basename.is_none() && discr.is_none() { Some("app".to_string()) } else { basename };
+            // suffix "gz": flexi_logger takes such files for compressed already and never compresses
+            // them; what a compressing cleanup means there is not defined anywhere - not generated
+            let cln = match (suffix.as_deref(), cln) {
+                (Some("gz"), Cln::KeepGz(m)) => Cln::Keep(m),
+                (Some("gz"), Cln::KeepBoth(k, m)) => Cln::Keep(k.saturating_add(m)),
+                (_, c) => c,
+            };
             FileCfg {
                 basename,
                 discr,
